@@ -184,6 +184,15 @@ structure PatchSpec where
   targets : List PatchTgt := []
   deriving Repr, Inhabited
 
+/-- one quantised spline as coded: start point (absolute), second-order deltas of the further
+control points, 3 x 32 colour DCT coefficients and 32 sigma DCT coefficients -/
+structure SplineSpec where
+  start : Int × Int := (0, 0)
+  deltas : List (Int × Int) := []
+  xyb : List (List Int) := []
+  sigma : List Int := []
+  deriving Repr, Inhabited
+
 structure FrameHdr where
   ty : Nat := 0            -- 0 regular, 2 reference only, 3 skip progressive
   upsampling : Nat := 1
@@ -208,7 +217,33 @@ structure FrameHdr where
   epfSigmaF16 : Nat := 0x3c00
   /-- patch dictionary (frame flag `PATCHES`), coded at the start of LfGlobal -/
   patches : List PatchSpec := []
+  /-- splines (frame flag `SPLINES`): `quant_adjust` and the splines; coded after the patches -/
+  splines : Option (Int × List SplineSpec) := none
+  /-- noise (frame flag `NOISE`): the 8 LUT entries as 10-bit numbers; coded after the splines -/
+  noise : Option (List Nat) := none
   deriving Repr, Inhabited
+
+/-- the spline dictionary as entropy-coder items over its 6 contexts (`Splines::parse`,
+jxl-frame/src/data/spline.rs): count-1 (2), start points (1: the first unsigned, the others packed
+deltas), quant_adjust (0), per spline the number of further control points (3), their second-order
+deltas (4), 3 x 32 colour and 32 sigma coefficients (5) -/
+def splineItems (qa : Int) (sp : List SplineSpec) : List Item :=
+  let starts : List Item := sp.zipIdx.flatMap fun (s, i) =>
+    if i == 0 then [.lit 1 s.start.1.toNat, .lit 1 s.start.2.toNat]
+    else
+      let prev := (sp.getD (i - 1) default).start
+      [.lit 1 (packSigned (s.start.1 - prev.1)), .lit 1 (packSigned (s.start.2 - prev.2))]
+  [.lit 2 (sp.length - 1)] ++ starts ++ [.lit 0 (packSigned qa)] ++
+  sp.flatMap fun s =>
+    [Item.lit 3 s.deltas.length] ++
+    (s.deltas.flatMap fun d => [Item.lit 4 (packSigned d.1), Item.lit 4 (packSigned d.2)]) ++
+    ((List.range 3).flatMap fun c => (List.range 32).map fun i => Item.lit 5 (packSigned (((s.xyb.getD c []).getD i 0)))) ++
+    ((List.range 32).map fun i => Item.lit 5 (packSigned (s.sigma.getD i 0)))
+
+def splineBits (qa : Int) (sp : List SplineSpec) : List Bool :=
+  let items := splineItems qa sp
+  let plan := (autoPlan .prefix 6).resolve items
+  (encodeHeader plan ++ encodeItems plan items)
 
 /-- the patch dictionary as entropy-coder items over its 10 contexts (`Patches::parse`,
 jxl-frame/src/data/patch.rs): count (0); per patch ref (1), x0 y0 (3), w-1 h-1 (2), targets-1 (7);
@@ -256,7 +291,8 @@ def writeFrameHeader (img : ImgHdr) (f : FrameHdr) : BW :=
   let w := w.bool false                   -- all_default
   let w := w.u 2 f.ty
   let w := w.bool true                    -- encoding = Modular
-  let w := w.u64 (if f.patches.isEmpty then 0 else 2)   -- flags: PATCHES = 2
+  -- flags: NOISE = 1, PATCHES = 2, SPLINES = 16
+  let w := w.u64 ((if f.patches.isEmpty then 0 else 2) + (if f.splines.isSome then 16 else 0) + (if f.noise.isSome then 1 else 0))
   let w := w.bool false                   -- do_ycbcr (xyb_encoded is false)
   let w := w.u32 upsDist f.upsampling
   let w := (List.range img.ecs.length).foldl (fun w i => w.u32 upsDist (f.ecUpsampling.getD i 1)) w
